@@ -9,7 +9,7 @@
  *     deallocated): the text appended is @ + the literal of the contents the buffer had when the call started - it parses back to
  *     the value that was printed -, the old contents stay in front of it, and no byte is read from storage that was freed.
  *
- * FINDINGS (reproduced on /repo/_build/janet):
+ * FINDINGS (reproduced on /repo/_build/janet; both repaired in /repo: c998705, fd20626 - the units pass now):
  *  (2) fails: (def b @"abc") (buffer/format b "%j" b) (pp b)  ->  @"abc@\"abc@\""   i.e. the appended literal is @"abc@" - the @ that was
  *      just pushed is read as part of the value (bx->count is read after the push); %p appends the correct @"abc".
  *      Repair (checked: the four content units pass): read bx->count before pushing the @.
@@ -30,6 +30,15 @@ void pa_ensure_stub(JanetBuffer *b, int32_t capacity, int32_t growth) {
   g_ens_room = (int64_t) capacity * growth;
 }
 void pa_push_u8_stub(JanetBuffer *b, uint8_t x) { g_outputs++; }
+/* janet_panic does not return; raising is right exactly when the literal cannot fit any buffer */
+void pa_panic_stub(const char *msg) {
+  PA(6 * (int64_t) g_count0 + 3 > 2147483647, "an error is raised only when the literal cannot fit a buffer");
+  PA(g_outputs == 0 && g_ens_calls == 0, "nothing is appended or reserved before the error is raised");
+#if MAXCOUNT > 357913940
+  REACH("alias: count beyond (INT32_MAX - 3) / 6 raises");
+#endif
+  __CPROVER_assume(0);
+}
 void pa_impl_stub(JanetBuffer *b, const uint8_t *str, int32_t len) { g_outputs++; }
 void h_alias_reserve(void) {
   JanetBuffer b; b.count = nd_i32(); b.capacity = nd_i32(); b.data = (uint8_t *) 0; b.gc.flags = 0;
@@ -38,9 +47,7 @@ void h_alias_reserve(void) {
   janet_escape_buffer_b(&b, &b);
   PA(g_ens_calls == 1 && !g_out_before_ens, "room for the literal is reserved once, before anything is appended");
   PA(g_ens_room >= (int64_t) g_count0 + 3 + 4 * (int64_t) g_count0, "the reservation covers the worst case: old contents + @ + two quotes + four characters per byte");
-#if MAXCOUNT > 357913940
-  if (g_count0 > 357913940) REACH("alias: count beyond (INT32_MAX - 3) / 6");
-#endif
+  PA(g_count0 <= 357913940, "returns only when the literal fits a buffer");
   if (g_count0 == 357913940) REACH("alias: largest count whose reservation fits an int32");
   REACH("janet_escape_buffer_b returns");
 }
